@@ -156,7 +156,7 @@ class EvecTr(FunTr):
             if len(a) == 1 and a[0].ty == "cmat":
                 return Val("(np_diag c_zero %s)" % a[0].term, "cvec")
             self.bail(e, "numpy.diag(%s)" % ", ".join(x.ty for x in a))
-        self.bail(e, "call of `%s`" % q)
+        return self.unknown_call(q, args, kwargs, e, env, B)
 
     def method(self, v, attr, args, kwargs, e, env, B):
         if attr == "copy" and not args and not kwargs and v.ty in ("rmat", "cmat"):
@@ -272,6 +272,12 @@ class EvecTr(FunTr):
         self.bail(e, "comparison %s on (%s, %s)" % (type(op).__name__, l.ty, r.ty))
 
     def other_expr(self, e, env, B):
+        if isinstance(e, ast.Set):
+            # {a, b, *xs} is set([a, b, *xs]): the elements are evaluated left to right, duplicates collapse
+            v = self.other_expr(ast.copy_location(ast.List(elts=e.elts, ctx=ast.Load()), e), env, B)
+            if v.ty != "listnat":
+                self.bail(e, "set display of %s" % v.ty)
+            return Val("(py_set %s)" % v.term, "setnat")
         if isinstance(e, ast.List):
             if len(e.elts) == 1 and isinstance(e.elts[0], ast.Constant) and e.elts[0].value is None:
                 return Val("[None]", "nonelist")
@@ -294,11 +300,12 @@ class EvecTr(FunTr):
             return Val(t, "listnat")
         if isinstance(e, ast.ListComp):
             return Val(self.len_comprehension(e, env, B), "listnat")
-        self.bail(e)
+        self.bail(e)         # a generator expression outside a * (it is consumed lazily): refused
 
     def len_comprehension(self, c, env, B):
-        """[len(i) for i in X]  with X a list of vectors -> map (@length _) X"""
-        if not (isinstance(c, ast.ListComp) and len(c.generators) == 1):
+        """[len(i) for i in X] / (len(i) for i in X) unpacked by *, with X a list of vectors -> map (@length _) X
+        (a starred generator is exhausted on the spot, in order, exactly like the list comprehension)"""
+        if not (isinstance(c, (ast.ListComp, ast.GeneratorExp)) and len(c.generators) == 1):
             self.bail(c, "`%s` (only [len(i) for i in <list of vectors>])" % src_of(c)[:80])
         g = c.generators[0]
         if g.ifs or g.is_async or not isinstance(g.target, ast.Name) or \
@@ -330,6 +337,8 @@ def translate_sort(source):
     body = body_no_doc(fn)
     tr = EvecTr(SORT, source)
     tr.aliases = dict(aliases)
+    tr.module_aliases = dict(aliases)
+    tr.helpers = {x.name: (x, mod) for x in mod.body if isinstance(x, ast.FunctionDef) and x.name != "evec_sort"}
     tr.function_locals = frozenset(assigned_names(body))
     tr.protected = frozenset(["target_arr", "target_evecs", "base_evecs", "filter", "threshold"])
     builtins_unshadowed(mod, SORT, {"len", "set", "range"})
@@ -362,6 +371,8 @@ def translate_disp(source):
     for dt, mt, name in (("r", "list (list F)", "real"), ("c", "list (list cplx)", "complex")):
         tr = EvecTr(DISP, source)
         tr.aliases = dict(aliases)
+        tr.module_aliases = dict(aliases)
+        tr.helpers = {x.name: (x, mod) for x in mod.body if isinstance(x, ast.FunctionDef) and x.name != "evec_disp2eig"}
         tr.function_locals = frozenset(assigned_names(body))
         tr.protected = frozenset(["mass"])
         env = {"a": Val("a", dt + "mat", "param"), "mass": Val("mass", "rvec", "param")}
@@ -480,16 +491,64 @@ def translate_load(source):
     if not isinstance(tup, ast.Tuple) or not tup.elts:
         raise TranslateError(LOAD, lb[1], "_read_vecs does not yield a tuple")
 
-    def fl(e):
-        # float(line[a:b])
-        if isinstance(e, ast.Call) and src_of(e.func) == "float" and len(e.args) == 1 and not e.keywords:
-            s = e.args[0]
-            if isinstance(s, ast.Subscript) and src_of(s.value) == "line" and isinstance(s.slice, ast.Slice) and s.slice.step is None \
-                    and all(isinstance(x, ast.Constant) and type(x.value) is int and x.value >= 0 for x in (s.slice.lower, s.slice.upper)):
-                return "(parse_float (slice %d %d l))" % (s.slice.lower.value, s.slice.upper.value)
-        raise TranslateError(LOAD, e, "`%s` (only float(line[a:b]) with literal bounds)" % src_of(e)[:60])
-    comps = []
-    for c in tup.elts:
+    LINE = object()          # marker: the stripped line
+
+    def ev_int(e, env):
+        """integer expression over literals and parameters bound to literals: + and - only, folded exactly"""
+        if isinstance(e, ast.Constant) and type(e.value) is int:
+            return e.value
+        if isinstance(e, ast.Name) and isinstance(env.get(e.id), int) and not isinstance(env.get(e.id), bool):
+            return env[e.id]
+        if isinstance(e, ast.BinOp) and isinstance(e.op, (ast.Add, ast.Sub)):
+            l, r = ev_int(e.left, env), ev_int(e.right, env)
+            return l + r if isinstance(e.op, ast.Add) else l - r
+        raise TranslateError(LOAD, e, "`%s` is not an integer literal / parameter / sum of them" % src_of(e)[:60])
+
+    def ev_float(e, env):
+        """float(line[a:b]) -> parse_float (slice a b l);  or a local bound to one"""
+        if isinstance(e, ast.Name) and isinstance(env.get(e.id), str):
+            return env[e.id]
+        if isinstance(e, ast.Call) and isinstance(e.func, ast.Name) and e.func.id == "float" and "float" not in env \
+                and len(e.args) == 1 and not e.keywords:
+            sl = e.args[0]
+            if isinstance(sl, ast.Subscript) and isinstance(sl.value, ast.Name) and env.get(sl.value.id) is LINE \
+                    and isinstance(sl.slice, ast.Slice) and sl.slice.step is None \
+                    and sl.slice.lower is not None and sl.slice.upper is not None:
+                lo, hi = ev_int(sl.slice.lower, env), ev_int(sl.slice.upper, env)
+                if lo < 0 or hi < 0:
+                    raise TranslateError(LOAD, e, "negative slice bound in `%s`" % src_of(e)[:60])
+                return "(parse_float (slice %d %d l))" % (lo, hi)
+        raise TranslateError(LOAD, e, "`%s` (only float(line[a:b]) with bounds that are integer literals or sums of them)" % src_of(e)[:60])
+
+    def ev_complex(c, env, depth=0):
+        """re + im * 1j   |   helper(line, INT, ..) with a straight-line body ending in such an expression"""
+        if isinstance(c, ast.Call) and isinstance(c.func, ast.Name) and c.func.id not in env and not c.keywords:
+            hs = [x for x in mod.body if isinstance(x, ast.FunctionDef) and x.name == c.func.id]
+            if len(hs) == 1 and depth < 2:
+                h = find_function(mod, LOAD, c.func.id)
+                ha = h.args
+                if h.decorator_list or ha.defaults or ha.vararg or ha.kwarg or ha.kwonlyargs or ha.posonlyargs \
+                        or len(ha.args) != len(c.args):
+                    raise TranslateError(LOAD, c, "helper `%s`: decorators / defaults / arity" % h.name)
+                forbid_dynamic(h, LOAD)
+                henv = {}
+                for p_, x in zip(ha.args, c.args):
+                    if isinstance(x, ast.Name) and env.get(x.id) is LINE:
+                        henv[p_.arg] = LINE
+                    else:
+                        henv[p_.arg] = ev_int(x, env)
+                hb = body_no_doc(h)
+                if not hb or not isinstance(hb[-1], ast.Return) or hb[-1].value is None:
+                    raise TranslateError(LOAD, h, "helper `%s` does not end in `return <expression>`" % h.name)
+                for st in hb[:-1]:
+                    if not (isinstance(st, ast.Assign) and len(st.targets) == 1 and isinstance(st.targets[0], ast.Name)):
+                        raise TranslateError(LOAD, st, "statement `%s` in helper `%s` (only `local = float(line[a:b])` / "
+                                                       "`local = <integer expression>`)" % (src_of(st)[:60], h.name))
+                    try:
+                        henv[st.targets[0].id] = ev_float(st.value, henv)
+                    except TranslateError:
+                        henv[st.targets[0].id] = ev_int(st.value, henv)
+                return ev_complex(hb[-1].value, henv, depth + 1)
         ok = isinstance(c, ast.BinOp) and isinstance(c.op, ast.Add) and isinstance(c.right, ast.BinOp) and isinstance(c.right.op, ast.Mult)
         if ok:
             im, unit = c.right.left, c.right.right
@@ -497,8 +556,11 @@ def translate_load(source):
                 im, unit = unit, im
             ok = isinstance(unit, ast.Constant) and isinstance(unit.value, complex) and unit.value == 1j
         if not ok:
-            raise TranslateError(LOAD, c, "`%s` (only float(line[a:b]) + float(line[c:d]) * 1j)" % src_of(c)[:80])
-        comps.append((fl(c.left), fl(im)))
+            raise TranslateError(LOAD, c, "`%s` (only float(line[a:b]) + float(line[c:d]) * 1j, or a straight-line helper "
+                                          "returning that)" % src_of(c)[:80])
+        return ev_float(c.left, env), ev_float(im, env)
+
+    comps = [ev_complex(c, {"line": LINE}) for c in tup.elts]
     names = ["x%d" % k for k in range(2 * len(comps))]
     scrut = ", ".join(t for pair in comps for t in pair)
     pat = ", ".join("Some %s" % n for n in names)
